@@ -3,7 +3,6 @@ CONSTANTS
   Keys = {"k1", "k2"}
   Algs = {"ES256"}
   MaxInst = 2
-INVARIANTS NoForgery Binding
-PROPERTIES EveryStepPost
+INVARIANTS NoForgery Binding EmittedTokensConform GatesHold
 VIEW PView
 CHECK_DEADLOCK FALSE
